@@ -63,6 +63,7 @@ CONTENTS = [
     tree.flat_file("JavaScript", [3, 61]),
     "def f(\n",  # malformed
     "",
+    _py([5, 32]).replace("\n\ndef ", "\n\r\ndef ", 1),  # content 0 with one lone carriage return (a line break to the tool) and nothing else changed
 ]
 EXCLUSIONS = [[], ["gen/"], ["*.js"], ["src/app.py"], ["lib/*"], ["app.py"]]
 INITIAL = {"src/app.py": 0, "lib/app.py": 1, "src/util.js": 2, "tests/t.py": 0, ".hidden.py": 0}
@@ -176,6 +177,8 @@ class World:
         else:
             doc["version"] = OTHER_VERSION if mode == "other" else None
         for entry in doc["codebase"]["files"].values():
+            if not isinstance(entry, dict):
+                continue
             for m in entry["measurements"]:
                 m["value"] += 7  # as another version's analysis might have measured
             entry["loc"] = sum(m["value"] for m in entry["measurements"])
@@ -196,6 +199,8 @@ class World:
             return
         doc = json.loads(cp.read_text())
         files = doc["codebase"]["files"]
+        if path in files and not isinstance(files[path], dict) and kind != "drop":
+            return  # already replaced by a wrong-shaped entry
         if kind == "drop" and path in files:
             del files[path]
             self.cache["entries"].pop(path, None)
@@ -208,6 +213,10 @@ class World:
             for m in files[path]["measurements"]:
                 m["value"] += 3
             self.cache["entries"][path] = "f" * 32
+        elif kind == "null" and path in files:
+            # an entry of the wrong shape in an otherwise intact cache of this version: the whole cache is then not trustworthy
+            files[path] = None
+            self.cache["entries"][path] = None  # marker: while it is there nothing from this cache may be reused
         elif kind == "move" and path in files:
             # only to a path of the same language: an entry whose language contradicts its own path cannot stem from any scan,
             # and would be indistinguishable from a valid entry once a file with that content appears there
@@ -281,7 +290,8 @@ class World:
         must = set()
         for p in fresh_files:
             md5 = hashlib.md5(self.files[p]).hexdigest()
-            if self.cache is None or self.cache["version"] != written["version"] or self.cache["entries"].get(p) != md5:
+            broken = self.cache is not None and any(v is None for v in self.cache["entries"].values())
+            if self.cache is None or broken or self.cache["version"] != written["version"] or self.cache["entries"].get(p) != md5:
                 must.add(p)
         if not probe.usable(len(must)):
             self.probe_unusable = True  # the observation point is gone: only the report comparison above decides
@@ -364,7 +374,7 @@ def shrink_candidates(case):
 
 def alphabet(tier):
     paths = PATHS[:4] if tier == "quick" else PATHS
-    contents = [1, 3] if tier == "quick" else [0, 1, 2, 3, 4]
+    contents = [1, 3, 5] if tier == "quick" else [0, 1, 2, 3, 4, 5]
     ops = []
     for p in paths:
         for c in contents:
@@ -386,9 +396,10 @@ def alphabet(tier):
     if tier != "quick":
         ops.append(("other_version", "null"))
         ops.append(("other_version", "superstring"))
-    for kind in ("drop", "add_missing", "checksum", "move"):
+    for kind in ("drop", "add_missing", "checksum", "move", "null"):
         for p in (["src/app.py", "gen/out.c"] if tier == "quick" else ["src/app.py", "lib/app.py", "src/util.js", "gen/out.c"]):
-            ops.append(("alter", kind, p))
+            if kind != "null" or p == "src/app.py":
+                ops.append(("alter", kind, p))
     return ops
 
 
@@ -473,7 +484,7 @@ def make_machine(col):
             self._do(("other_version", mode))
 
         @precondition(lambda self: self.world.scans > 0)
-        @rule(kind=st.sampled_from(["drop", "add_missing", "checksum", "move"]), p=paths)
+        @rule(kind=st.sampled_from(["drop", "add_missing", "checksum", "move", "null"]), p=paths)
         def alter(self, kind, p):
             self._do(("alter", kind, p))
 
